@@ -12,9 +12,15 @@ m = {"merge iterator adapter":("D5",["C11","C08"]), "MergeCompact returns":("D6"
  "flushed into a temporary directory":("D13",["C02","C10"]),
  "over-long varint":("D17",["C12","C04","C09"]),
  "disk index binary search no longer":("D18",["C03"]), "SeekNext skips a marker":("D19",["C04","C03"]),
- "removes the WAL files oldest first":("D20",["C10","C02"])}
+ "removes the WAL files oldest first":("D20",["C10","C02"]),
+ "memstore rejects a nil key":("D21",["C14"]), "checks the compression type before":("D22",["C20"]),
+ "releases the descriptor even when":("D23",["C19"]), "really stops the process":("D24",["C11"]),
+ "finishes the shutdown when":("D25",["C19"]), "renames the merged table last":("D26",["C02","C10","C06"]),
+ "take the database folder itself":("D27",["C01","C02","C10","C17"]), "a Put that returns an error":("D28",["C17"]),
+ "writers truncate the files":("D29",["C15","C14"]), "any over-long varint":("D30",["C12"]),
+ "payload was cut off":("D31",["C04","C12"]), "zero-padded end":("D32",["C04"]), "never hands the caller":("D33",["C04"])}
 # a later fix: commit that refines an earlier one has to be reverted together with it (newest first)
-also = {"D15": ["WAL sweep after a flush stays inside"]}
+also = {"D15": ["WAL sweep after a flush stays inside"], "D17": ["any over-long varint"], "D31": ["zero-padded end"], "D13": ["take the database folder itself"]}
 out = os.path.join(os.path.dirname(os.path.abspath(__file__)), "revert")
 os.makedirs(out, exist_ok=True)
 for f in os.listdir(out):
